@@ -4,7 +4,10 @@
 # HEAD are reported as STALE (the code they touched has changed since).
 . /verif/env.sh
 for d in /verif/seeded/*/; do
-  id=$(basename "$d"); prop=$(python3 -c "import json;print(json.load(open('$d/meta.json'))['breaks_property'])")
+  id=$(basename "$d"); [ -f "$d/meta.json" ] || continue
+  prop=$(python3 -c "import json;m=json.load(open('$d/meta.json'));print(m.get('check',m['breaks_property']))")
+  status=$(python3 -c "import json;print(json.load(open('$d/meta.json')).get('status',''))")
+  case "$status" in neutralised*) echo "$id $prop NEUTRALISED ($status)"; continue;; esac
   WT=$(mktemp -d /tmp/st-XXXXXX); rmdir "$WT"
   git -C /repo worktree add -q --detach "$WT" HEAD || continue
   if ! git -C "$WT" apply "$d/patch.diff" 2>/dev/null; then echo "$id $prop STALE (patch does not apply to HEAD)"; git -C /repo worktree remove --force "$WT"; continue; fi
